@@ -549,7 +549,10 @@ def p_pipeline_command(p):
     else:
         # XXX timespec
         node = ast.node(kind='reservedword', word='!', pos=p.lexspan(1))
-        if p[2].kind == 'pipeline':
+        if p[2] is None:
+            # a lone '!' ended by a newline: list_terminator has no node
+            p[0] = ast.node(kind='pipeline', parts=[node], pos=node.pos)
+        elif p[2].kind == 'pipeline':
             p[0] = p[2]
             p[0].parts.insert(0, node)
             p[0].pos = (p[0].parts[0].pos[0], p[0].parts[-1].pos[1])
